@@ -449,7 +449,8 @@ pub fn check_state(
         st.rule("C19.write-trap");
         match trap_battery(ctx, cfg, hist, st) {
             Ok(None) => {}
-            Ok(Some(why)) => viol.push(v(p(19), "C19.write-trap", why)),
+            // "clone() ... does not alter the source": a write by clone() is C14's as well
+            Ok(Some(why)) => viol.push(v(p(19) | if why.starts_with("clone()") { p(14) } else { 0 }, "C19.write-trap", why)),
             Err(m) => return StateOut { viol, machinery: Some(m) },
         }
         // restore the registry of the main execution of this state check
